@@ -3,5 +3,7 @@ pub mod generic;
 pub mod lexer;
 pub mod parser;
 pub mod span;
+#[cfg(prqlc_verif)]
+pub mod verif_hash;
 #[cfg(test)]
 pub(crate) mod test;
